@@ -473,3 +473,19 @@ proof fn lemma_untouched_outside_allocated(t: Seq<IoEv>, from: int, ps: int, pag
         }
     }
 }
+
+// with (w3-all-pages-written-before-header): when the header write (index h) exists, every page allocated by the
+// transaction was written before it; together with new_state_complete the whole new tree is on the disk
+proof fn lemma_all_pages_before_header(t0: Seq<IoEv>, t: Seq<IoEv>, ps: int, pages: Map<u64, (NonNull<u8>, usize)>, m: Meta, h: int, k: u64)
+    requires
+        commit_clauses(t, t0.len() as int, ps, pages, m), w3_all_pages_written(t0, t, ps, pages),
+        t0.len() <= h < t.len(), is_hdr_write(t[h], ps), pages.contains_key(k), k > 1,
+    ensures exists|i: int| t0.len() <= i < h && (#[trigger] t[i] matches IoEv::Write { off, .. } && off == ps * k),
+{
+    reveal(w3_all_pages_written);
+    assert(page_written(t, t0.len() as int, ps, k));
+    let i = choose|i: int| t0.len() <= i < t.len() && (#[trigger] t[i] matches IoEv::Write { off, .. } && off == ps * k);
+    assert(ps * k >= 2 * ps) by(nonlinear_arith) requires k >= 2, ps > 0;
+    assert(i != h);
+    lemma_writes_around_header(t, t0.len() as int, ps, pages, m, h, i);
+}
